@@ -274,10 +274,50 @@ def api_need_oracle(ctx):
                                         {"wrapper": wname, "optional": opt, "sent": sent, "expected": expected.value}))
 
 
+def script_driver_oracle(ctx):
+    """The plan stage of the script protocol (`stepup.core.script._driver_plan`, what `./script.py plan [--optional]`
+    executes): the run steps of a script with `info()` and of every case of a script with `cases()` are declared
+    OPTIONAL exactly when `--optional` was given."""
+    import argparse
+    import types
+
+    import apicap
+    from stepup.core import script as script_mod
+    from stepup.core.enums import Need
+
+    single = types.SimpleNamespace(info=lambda: {"inp": ["src.txt"], "out": ["single.out"]}, run=lambda inp, out: None)
+    cases = types.SimpleNamespace(CASE_FMT="case_{name}", cases=lambda: iter([{"name": "a"}, {"name": "b"}, ((), {"name": "c"})]),
+                                  case_info=lambda name: {"inp": ["src.txt"], "out": [f"case_{name}.out"]},
+                                  run=lambda inp, out: None)
+    both = types.SimpleNamespace(**{**vars(cases), "info": single.info})
+    with apicap.project() as base:
+        for kind, obj, nrun in (("single", single, 1), ("cases", cases, 3), ("single+cases", both, 4)):
+            for opt in (False, True):
+                with apicap.step_process(base) as (api, client):
+                    try:
+                        wrapper = script_mod.ScriptWrapper(obj, "tool.py")
+                        script_mod._driver_plan("tool.py", argparse.Namespace(cmd="plan", optional=opt, step_info=None), wrapper)
+                    except Exception as exc:  # noqa: BLE001
+                        ctx.finding(Finding(PID, f"need-lost-in-script-driver:{kind}:raises",
+                                            f"_driver_plan of a {kind} script (optional={opt}) raises {exc!r}", {"kind": kind, "optional": opt}))
+                        continue
+                needs = [(str(c[1][1]), c[1][7]) for c in client.calls if c[0] == "define_step"]
+                expected = (Need.OPTIONAL if opt else Need.DEFAULT).value
+                ctx.stats.count(f"script-driver:{kind}")
+                ctx.stats.case(("script-driver", kind, opt))
+                wrong = [(cmd, need) for cmd, need in needs if need != expected]
+                if len(needs) != nrun or wrong:
+                    ctx.finding(Finding(PID, f"need-lost-in-script-driver:{kind}",
+                                        f"`tool.py plan{' --optional' if opt else ''}` of a {kind} script declares {needs}; "
+                                        f"expected {nrun} run step(s) with need {expected}",
+                                        {"kind": kind, "optional": opt, "declared": needs, "expected_need": expected}))
+
+
 async def search(ctx):
     import asyncio as _asyncio
 
     api_need_oracle(ctx)
+    script_driver_oracle(ctx)
 
     for mode in ("optional", "target"):
         for sig, what, extra in await _asyncio.to_thread(amended_output_case, mode):
@@ -286,7 +326,7 @@ async def search(ctx):
     await cli_targets(ctx)
     import corr_kernel as _ck
 
-    await _ck.run_scenarios(ctx, lambda ctx, run_: Observer(ctx, run_), ["nested_chain", "amended_consumer_rerun", "retarget_optional", "plan_need_demotion"])
+    await _ck.run_scenarios(ctx, lambda ctx, run_: Observer(ctx, run_), ["nested_chain", "amended_consumer_rerun", "retarget_optional", "plan_need_demotion", "dir_target_bounds"])
     import contextlib
 
     import corr_kernel
